@@ -78,7 +78,10 @@ class PluginRef(MetadataSchema):
     @classmethod
     def _subclass_for(cls, group: NonEmptyStr):
         """Create a subclass of PluginRef with group field pre-set."""
-        return create_model(f"PG{group.capitalize()}.PluginRef", __base__=cls, group=(Literal[group], group))  # type: ignore
+        ret = create_model(f"PG{group.capitalize()}.PluginRef", __base__=cls, group=(Literal[group], group))  # type: ignore
+        # the group is narrowed to a constant on purpose (for the schema override check)
+        ret.__overrides__.add("group")
+        return ret
 
 
 class PluginBase(BaseModelPlus):
